@@ -24,6 +24,7 @@ type FuncContract struct {
 	Requires   []Clause
 	Ensures    []Clause
 	LoopInv    map[int][]Clause // loop ordinal (1-based, pre-order) -> invariants
+	LoopRet    map[int][]Clause // loop ordinal -> clauses every return executed inside that loop must satisfy (r0, r1, ... = returned values)
 	LoopMod    map[int][]string // extra havoc targets
 	NoPanic    bool
 	AssumeNoPanic map[string]string // callee -> reason: taken not to panic when called from this nopanic function
@@ -242,7 +243,7 @@ func (pc *PkgContracts) parseFile(path string) error {
 			case "assert":
 				cur.Asserts = append(cur.Asserts, cl)
 			case "loop":
-				// loop N invariant e | loop N modifies a, b | loop N unroll k
+				// loop N invariant e | loop N return e | loop N modifies a, b | loop N unroll k
 				parts := strings.SplitN(rest, " ", 3)
 				if len(parts) < 3 {
 					return fmt.Errorf("%s:%d: bad loop clause", path, l.line)
@@ -254,6 +255,11 @@ func (pc *PkgContracts) parseFile(path string) error {
 				switch parts[1] {
 				case "invariant":
 					cur.LoopInv[k] = append(cur.LoopInv[k], Clause{Text: parts[2], Line: l.line, File: path})
+				case "return":
+					if cur.LoopRet == nil {
+						cur.LoopRet = map[int][]Clause{}
+					}
+					cur.LoopRet[k] = append(cur.LoopRet[k], Clause{Text: parts[2], Line: l.line, File: path})
 				case "modifies":
 					for _, v := range strings.Split(parts[2], ",") {
 						cur.LoopMod[k] = append(cur.LoopMod[k], strings.TrimSpace(v))
